@@ -7,6 +7,8 @@ use crate::oracle::{self, Num, PathClass, RangeClass, classify_location, parse_n
 use crate::strace::{self, BatchItem, OpenVerdict};
 use crate::tree::{self, Entry, Tree, pattern};
 use std::collections::{BTreeSet, HashSet};
+#[allow(unused_imports)]
+use std::collections::HashMap;
 use vcommon::onnxpb::{FLOAT, UINT8};
 use vcommon::{Args, Json, Report, Rng, json, to_hex};
 
@@ -15,10 +17,12 @@ const RULE: &str = "Cases: generated ONNX models whose initialisers (f32/i32/u8/
 struct Ctx<'a> {
     tree: &'a Tree,
     rep: Report,
-    seen_presig: HashSet<String>,
+    shrunk_per_class: std::collections::HashMap<String, u32>,
     locations_seen: HashSet<Vec<u8>>,
     opened_paths: BTreeSet<String>,
     timeouts: u64,
+    odd_refusals: Vec<Json>,
+    odd_seen: HashSet<String>,
 }
 
 #[derive(Clone, Debug)]
@@ -225,7 +229,7 @@ fn judge(ctx: &mut Ctx, case: &Case, loader: Loader, res: &ChildRes, count: bool
         }
         _ => {
             let class = exec::end_class(res);
-            let detail = format!("the loading process ended with {} instead of returning an error (stderr: {})", class, res.stderr.lines().last().unwrap_or("").chars().take(160).collect::<String>());
+            let detail = format!("the loading process ended with {} instead of returning an error (stderr: {})", class, res.stderr.lines().find(|l| !l.trim().is_empty()).unwrap_or("").chars().take(160).collect::<String>());
             return abnormal(ctx, class, detail);
         }
     };
@@ -240,7 +244,13 @@ fn judge(ctx: &mut Ctx, case: &Case, loader: Loader, res: &ChildRes, count: bool
                 ctx.rep.count(&format!("{}:refused", ln));
                 ctx.rep.count(&format!("{}:{}", ln, ec));
                 if refusals.is_empty() {
-                    ctx.rep.count(&format!("{}:refused_although_acceptable:{}", ln, ec));
+                    ctx.rep.count(&format!("{}:refused_though_refusal_not_required:{}", ln, ec));
+                }
+                if ec == "err:other" || (refusals.is_empty() && matches!(ec, "err:disallowed-path" | "err:file-too-short" | "err:io")) {
+                    let key = format!("{}|{}|{}", ln, ec, refusals.is_empty());
+                    if ctx.odd_refusals.len() < 40 && ctx.odd_seen.insert(key) {
+                        ctx.odd_refusals.push(json!({"loader": ln, "class": ec, "acceptable_by_oracle": refusals.is_empty(), "message": msg, "tensors": case.tensors.iter().map(|t| t.to_json()).collect::<Vec<_>>()}));
+                    }
                 }
                 if matches!(ec, "err:disallowed-path" | "err:file-too-short" | "err:invalid-data-length" | "err:io") {
                     for t in &case.tensors {
@@ -385,6 +395,10 @@ fn presig(loader: Loader, f: &Finding) -> String {
 }
 
 fn signature(loader: Loader, f: &Finding, t: &TensorSpec, monitor: &str) -> String {
+    if monitor == "syscall" {
+        // what was opened depends on the location only
+        return format!("C21|{}|{}|syscall|loc={}", loader.name(), f.kind, loc_sig(t));
+    }
     format!(
         "C21|{}|{}:{}|{}|loc={}|offset={}|length={}|dtype={}",
         loader.name(),
@@ -403,7 +417,7 @@ fn shrink(ctx: &mut Ctx, case: &Case, loader: Loader, f: &Finding) -> (Case, Fin
     let want = (f.kind, f.sub.clone());
     let mut best = case.clone();
     let mut best_f = f.clone();
-    let mut budget = 60;
+    let mut budget = 120;
     let attempt = |ctx: &mut Ctx, cand: Case, best: &mut Case, best_f: &mut Finding, budget: &mut i32| -> bool {
         if *budget <= 0 || cand == *best {
             return false;
@@ -439,10 +453,44 @@ fn shrink(ctx: &mut Ctx, case: &Case, loader: Loader, f: &Finding) -> (Case, Fin
         c.tensors[ti].extra.clear();
         attempt(ctx, c, &mut best, &mut best_f, &mut budget);
     }
+    // canonical location first (so that ranges can be canonical relative to a known file)
+    let mut loc_canonical = false;
+    if let Some(loc) = best.tensors[ti].location.clone() {
+        let cands: [&[u8]; 12] = [b"w.data", b"w.data/", b"w.data/.", b"./w.data", b"sub/x.data", b"../secret.data", b"/w.data", b"notes.txt", b"noext", b"sub\\x.data", b"link.data", b"missing.data"];
+        let size_of = |ctx: &Ctx, l: &[u8]| match file_for(ctx.tree, loader, l) {
+            Entry::File { size, .. } | Entry::LinkOut { size, .. } => Some(size as u64),
+            _ => None,
+        };
+        for cand in cands {
+            if cand == &loc[..] {
+                loc_canonical = true;
+                break;
+            }
+            let mut c = best.clone();
+            c.tensors[ti].location = Some(cand.to_vec());
+            if attempt(ctx, c.clone(), &mut best, &mut best_f, &mut budget) {
+                loc_canonical = true;
+                break;
+            }
+            // same position relative to the end of the new file
+            if let (Some(old), Some(new), Some(off)) = (size_of(ctx, &loc), size_of(ctx, cand), best.tensors[ti].offset.as_ref().and_then(|o| o.parse::<u64>().ok())) {
+                if off > old && old != new {
+                    c.tensors[ti].offset = Some((new + 1).to_string());
+                    if attempt(ctx, c, &mut best, &mut best_f, &mut budget) {
+                        loc_canonical = true;
+                        break;
+                    }
+                }
+            }
+        }
+    }
     // canonical range / dtype
     let crash = want.0 == "no-error";
     let len_cands: Vec<&str> = if crash { vec!["9223372036854775807", "4", "0"] } else { vec!["0", "4", "16"] };
     for len in len_cands {
+        if best.tensors[ti].length.as_deref() == Some(len) && best.tensors[ti].dtype == UINT8 {
+            break;
+        }
         let mut c = best.clone();
         let t = &mut c.tensors[ti];
         t.length = Some(len.to_string());
@@ -453,9 +501,25 @@ fn shrink(ctx: &mut Ctx, case: &Case, loader: Loader, f: &Finding) -> (Case, Fin
         }
     }
     {
-        let mut c = best.clone();
-        c.tensors[ti].offset = Some("0".into());
-        attempt(ctx, c, &mut best, &mut best_f, &mut budget);
+        // offset 0, or one past the end of the named file
+        let size = best.tensors[ti].location.as_ref().and_then(|l| match file_for(ctx.tree, loader, l) {
+            Entry::File { size, .. } | Entry::LinkOut { size, .. } => Some(size as u64),
+            _ => None,
+        });
+        let mut offs = vec!["0".to_string()];
+        if let Some(sz) = size {
+            offs.push((sz + 1).to_string());
+        }
+        for o in offs {
+            if best.tensors[ti].offset.as_deref() == Some(o.as_str()) {
+                break;
+            }
+            let mut c = best.clone();
+            c.tensors[ti].offset = Some(o);
+            if attempt(ctx, c, &mut best, &mut best_f, &mut budget) {
+                break;
+            }
+        }
     }
     if best.tensors[ti].dtype != UINT8 {
         let mut c = best.clone();
@@ -466,34 +530,52 @@ fn shrink(ctx: &mut Ctx, case: &Case, loader: Loader, f: &Finding) -> (Case, Fin
             attempt(ctx, c, &mut best, &mut best_f, &mut budget);
         }
     }
-    // canonical location, then character deletion
-    if let Some(loc) = best.tensors[ti].location.clone() {
-        if loc != b"w.data" {
-            let mut c = best.clone();
-            c.tensors[ti].location = Some(b"w.data".to_vec());
-            attempt(ctx, c, &mut best, &mut best_f, &mut budget);
-        }
+    // no canonical location reproduces it: delete characters, then respell
+    if !loc_canonical {
         let mut cur = best.tensors[ti].location.clone().unwrap_or_default();
-        if cur != b"w.data" {
-            // delete chunks, then single bytes
-            let mut chunk = (cur.len() / 2).max(1);
-            while chunk >= 1 && budget > 0 {
-                let mut i = 0;
-                while i + chunk <= cur.len() && budget > 0 {
-                    let mut cand_loc = cur.clone();
-                    cand_loc.drain(i..i + chunk);
-                    let mut c = best.clone();
-                    c.tensors[ti].location = Some(cand_loc.clone());
-                    if attempt(ctx, c, &mut best, &mut best_f, &mut budget) {
-                        cur = cand_loc;
-                    } else {
-                        i += chunk;
-                    }
+        // delete chunks, then single bytes
+        let mut chunk = (cur.len() / 2).max(1);
+        while chunk >= 1 && budget > 0 {
+            let mut i = 0;
+            while i + chunk <= cur.len() && budget > 0 {
+                let mut cand_loc = cur.clone();
+                cand_loc.drain(i..i + chunk);
+                let mut c = best.clone();
+                c.tensors[ti].location = Some(cand_loc.clone());
+                if attempt(ctx, c, &mut best, &mut best_f, &mut budget) {
+                    cur = cand_loc;
+                } else {
+                    i += chunk;
                 }
-                if chunk == 1 {
+            }
+            if chunk == 1 {
+                break;
+            }
+            chunk /= 2;
+        }
+        // canonical spelling: every character except separators and dots becomes 'w'
+        if std::str::from_utf8(&cur).is_ok() {
+            let n_chars = String::from_utf8_lossy(&cur).chars().count();
+            for i in 0..n_chars {
+                if budget <= 0 {
                     break;
                 }
-                chunk /= 2;
+                let cur_chars: Vec<char> = String::from_utf8_lossy(&cur).chars().collect();
+                if i >= cur_chars.len() {
+                    break;
+                }
+                let c0 = cur_chars[i];
+                if matches!(c0, 'w' | '.' | '/' | '\\' | ':') {
+                    continue;
+                }
+                let mut nc = cur_chars.clone();
+                nc[i] = 'w';
+                let cand_loc: Vec<u8> = nc.into_iter().collect::<String>().into_bytes();
+                let mut c = best.clone();
+                c.tensors[ti].location = Some(cand_loc.clone());
+                if attempt(ctx, c, &mut best, &mut best_f, &mut budget) {
+                    cur = cand_loc;
+                }
             }
         }
     }
@@ -504,25 +586,72 @@ fn witness(case: &Case, loader: Loader, monitor: &str, detail: &str) -> Json {
     json!({"loader": loader.name(), "monitor": monitor, "case": case.to_json(), "tree_version": 1, "observed": detail})
 }
 
-/// Result monitor on one case for all loaders (or one).
-fn result_monitor(ctx: &mut Ctx, case: &Case, loaders: &[Loader]) {
-    for &loader in loaders {
+/// Run many (case, loader) pairs, several per forked child. A child that dies
+/// (abort, fatal signal, watchdog) loses only the item it was executing: that
+/// item is re-run alone in a fresh child to confirm and classify the end, and
+/// the remaining items continue in a new child.
+fn run_many(ctx: &mut Ctx, items: &[(Case, Loader)]) -> Vec<ChildRes> {
+    let tree = ctx.tree;
+    for (i, (case, loader)) in items.iter().enumerate() {
+        if *loader != Loader::Mem {
+            std::fs::write(tree.mdir.join(strace::model_file_name(i)), case.model_bytes()).expect("write model file");
+        }
+    }
+    let mut results: Vec<ChildRes> = Vec::with_capacity(items.len());
+    while results.len() < items.len() {
+        let start = results.len();
+        let chunk = &items[start..(start + 64).min(items.len())];
+        ctx.rep.count("result_monitor_children_forked");
+        let (end, lines, stderr) = exec::fork_stream(|emit| {
+            for (j, (case, loader)) in chunk.iter().enumerate() {
+                unsafe { libc::alarm(20) };
+                let o = exec::load_case(tree, case, *loader, &strace::model_file_name(start + j));
+                emit(&o.to_string());
+            }
+        });
+        let got = lines.len().min(chunk.len());
+        for l in lines.into_iter().take(got) {
+            results.push(ChildRes { end: End::Completed, result: Some(l), stderr: String::new() });
+        }
+        if got < chunk.len() {
+            // the child died while executing chunk[got]: confirm alone
+            let _ = (end, stderr);
+            let (case, loader) = &chunk[got];
+            ctx.rep.count("result_monitor_child_deaths_confirmed_alone");
+            let r = run_checked(ctx, case, *loader);
+            results.push(r);
+        }
+    }
+    for (i, (_, loader)) in items.iter().enumerate() {
+        if *loader != Loader::Mem {
+            let _ = std::fs::remove_file(tree.mdir.join(strace::model_file_name(i)));
+        }
+    }
+    results
+}
+
+/// Result monitor on a batch of (case, loader) pairs.
+fn result_monitor(ctx: &mut Ctx, items: &[(Case, Loader)]) {
+    let t0 = std::time::Instant::now();
+    let results = run_many(ctx, items);
+    ctx.rep.add("result_monitor_wall_ms", t0.elapsed().as_millis() as u64);
+    for ((case, loader), r) in items.iter().zip(results.iter()) {
+        let loader = *loader;
         ctx.rep.eval();
         ctx.rep.count(&format!("{}:loads_attempted", loader.name()));
-        let r = run_checked(ctx, case, loader);
-        let findings = judge(ctx, case, loader, &r, true);
+        let findings = judge(ctx, case, loader, r, true);
         for f in findings {
-            ctx.rep.count(&format!("violating_executions:{}", presig(loader, &f)));
             let ps = presig(loader, &f);
+            ctx.rep.count(&format!("violating_executions:{}", ps));
             // Shrink the first few of each class; further ones of the same class are counted.
-            let n_same = ctx.seen_presig.iter().filter(|s| s.starts_with(&format!("{}#", ps))).count();
-            if n_same >= 2 {
+            let n = ctx.shrunk_per_class.entry(ps.clone()).or_insert(0);
+            if *n >= 2 {
                 continue;
             }
+            *n += 1;
             let (small, sf) = shrink(ctx, case, loader, &f);
             let ti = sf.tensor.min(small.tensors.len() - 1);
             let sig = signature(loader, &sf, &small.tensors[ti], "result");
-            ctx.seen_presig.insert(format!("{}#{}", ps, sig));
             ctx.rep.violation(sig, sf.detail.clone(), witness(&small, loader, "result", &sf.detail));
         }
     }
@@ -577,8 +706,26 @@ fn note_classes(ctx: &mut Ctx, case: &Case) {
 
 /// System-call monitor on a batch of (case, loader) pairs.
 fn syscall_monitor(ctx: &mut Ctx, items: &[(Case, Loader)], tag: &str) {
+    // The traced child runs its items one after the other in one process; an
+    // aborting load ends it, and the rest continues in a new traced child.
+    let t0 = std::time::Instant::now();
+    let mut start = 0;
+    let mut round = 0;
+    while start < items.len() {
+        let used = syscall_monitor_once(ctx, &items[start..], &format!("{}-{}", tag, round));
+        start += used.max(1);
+        round += 1;
+        if ctx.rep.counters.get("strace_batches_failed").copied().unwrap_or(0) > 3 {
+            break;
+        }
+    }
+    ctx.rep.add("syscall_monitor_wall_ms", t0.elapsed().as_millis() as u64);
+}
+
+/// Returns how many leading items were decided (the traced child may have died early).
+fn syscall_monitor_once(ctx: &mut Ctx, items: &[(Case, Loader)], tag: &str) -> usize {
     if items.is_empty() {
-        return;
+        return 0;
     }
     let batch: Vec<BatchItem> = items.iter().map(|(c, l)| BatchItem::Load { case: c.clone(), loader: *l }).collect();
     ctx.rep.count("strace_children_run");
@@ -587,21 +734,27 @@ fn syscall_monitor(ctx: &mut Ctx, items: &[(Case, Loader)], tag: &str) {
         Err(e) => {
             ctx.rep.count("strace_batches_failed");
             ctx.rep.inconclusive = Some(format!("system-call monitor could not run: {}", e));
-            return;
+            return items.len();
         }
     };
     ctx.rep.add("strace_log_bytes", run.log_bytes as u64);
     if run.unparsed > 0 {
         ctx.rep.add("strace_unparsed_open_lines", run.unparsed);
         ctx.rep.inconclusive = Some(format!("{} open-family lines of the strace log could not be parsed", run.unparsed));
+        ctx.rep.note("strace_unparsed_samples", json!(run.unparsed_samples));
     }
     for (i, (case, loader)) in items.iter().enumerate() {
-        ctx.rep.eval();
         let Some(sec) = run.sections.get(&i) else {
-            ctx.rep.count("strace_sections_missing");
-            continue;
+            // the traced child ended before this item started
+            if i == 0 {
+                ctx.rep.count("strace_sections_missing");
+                return 1;
+            }
+            return i;
         };
+        ctx.rep.eval();
         ctx.rep.count("strace_sections_checked");
+        let died = sec.end.is_none();
         match &sec.end {
             Some(s) => ctx.rep.count(&format!("strace:{}:load_{}", loader.name(), s)),
             None => ctx.rep.count(&format!("strace:{}:load_died", loader.name())),
@@ -645,7 +798,11 @@ fn syscall_monitor(ctx: &mut Ctx, items: &[(Case, Loader)], tag: &str) {
                 }
             }
         }
+        if died {
+            return i + 1;
+        }
     }
+    items.len()
 }
 
 /// Positive/negative control of the system-call monitor.
@@ -737,12 +894,20 @@ pub fn run(args: &mut Args) {
         .map(|l| l.split(',').filter(|s| !s.is_empty()).map(|s| std::fs::canonicalize(s).unwrap_or_else(|_| s.into()).to_string_lossy().to_string()).collect())
         .unwrap_or_default();
 
+    // The loads and read-backs are tiny: one worker thread (a 16-thread pool per
+    // forked child costs more than everything else); no backtrace symbolisation
+    // when a child aborts.
+    // Safety: the process is single-threaded here.
+    unsafe {
+        std::env::set_var("RTEN_NUM_THREADS", "1");
+        std::env::set_var("RUST_BACKTRACE", "0");
+    }
     let root = tree::fresh_root(&format!("s{}", args.shard));
     let tree = Tree::spec(&root);
     let notes = tree.create();
     std::env::set_current_dir(&root).expect("chdir to scratch root");
     let rep = Report::new("C21", "extcheck", args, RULE);
-    let mut ctx = Ctx { tree: &tree, rep, seen_presig: HashSet::new(), locations_seen: HashSet::new(), opened_paths: BTreeSet::new(), timeouts: 0 };
+    let mut ctx = Ctx { tree: &tree, rep, shrunk_per_class: std::collections::HashMap::new(), locations_seen: HashSet::new(), opened_paths: BTreeSet::new(), timeouts: 0, odd_refusals: Vec::new(), odd_seen: HashSet::new() };
     ctx.rep.max_samples = 8;
     if !notes.is_empty() {
         ctx.rep.note("tree_notes", json!(notes));
@@ -752,11 +917,11 @@ pub fn run(args: &mut Args) {
     if let Some(r) = &replay_abs {
         for (case, loaders, monitor) in load_witnesses(r) {
             note_classes(&mut ctx, &case);
+            let items: Vec<(Case, Loader)> = loaders.iter().map(|l| (case.clone(), *l)).collect();
             if monitor != "syscall" {
-                result_monitor(&mut ctx, &case, &loaders);
+                result_monitor(&mut ctx, &items);
             }
             if monitor != "result" {
-                let items: Vec<(Case, Loader)> = loaders.iter().map(|l| (case.clone(), *l)).collect();
                 syscall_monitor(&mut ctx, &items, "replay");
             }
         }
@@ -773,18 +938,21 @@ pub fn run(args: &mut Args) {
         for p in &pinned {
             for (case, loaders, monitor) in load_witnesses(p) {
                 ctx.rep.count("pinned_witnesses_run");
+                let items: Vec<(Case, Loader)> = loaders.iter().map(|l| (case.clone(), *l)).collect();
                 if monitor != "syscall" {
-                    result_monitor(&mut ctx, &case, &loaders);
+                    result_monitor(&mut ctx, &items);
                 }
                 if monitor != "result" {
-                    let items: Vec<(Case, Loader)> = loaders.iter().map(|l| (case.clone(), *l)).collect();
                     syscall_monitor(&mut ctx, &items, "pinned");
                 }
             }
         }
     }
-    let fixed: Vec<Case> = cgen::fixed_cases(&tree).into_iter().enumerate().filter(|(i, _)| i % args.shards == args.shard).map(|(_, c)| c).collect();
-    let n_random = args.budget(2000, 120000);
+    let do_result = args.get("result").unwrap_or("1") != "0";
+    let do_syscall = args.get("syscall").unwrap_or("1") != "0";
+    let do_fixed = args.get("fixed").unwrap_or("1") != "0";
+    let fixed: Vec<Case> = cgen::fixed_cases(&tree).into_iter().filter(|_| do_fixed).enumerate().filter(|(i, _)| i % args.shards == args.shard).map(|(_, c)| c).collect();
+    let n_random = args.budget(2000, 300000);
     let mut rng = Rng::derive(args.seed, 0xC21_0000 + args.shard as u64);
     let mut queue: Vec<(Case, Loader)> = Vec::new();
     let mut batch_no = 0usize;
@@ -797,23 +965,27 @@ pub fn run(args: &mut Args) {
         };
         note_classes(&mut ctx, &case);
         ctx.rep.count("cases");
-        result_monitor(&mut ctx, &case, &LOADERS);
         if ctx.rep.wants_sample() && idx % 97 == 5 {
             ctx.rep.sample(|| case.to_json());
         }
         for l in LOADERS {
             queue.push((case.clone(), l));
         }
-        if queue.len() >= 192 {
+        if queue.len() >= 384 || idx + 1 == total {
             let items = std::mem::take(&mut queue);
-            syscall_monitor(&mut ctx, &items, &format!("b{}", batch_no));
+            if do_result {
+                result_monitor(&mut ctx, &items);
+            }
+            if do_syscall {
+                syscall_monitor(&mut ctx, &items, &format!("b{}", batch_no));
+            }
             batch_no += 1;
         }
     }
-    let items = std::mem::take(&mut queue);
-    syscall_monitor(&mut ctx, &items, &format!("b{}", batch_no));
 
     ctx.rep.add("watchdog_reruns", ctx.timeouts);
+    let odd = std::mem::take(&mut ctx.odd_refusals);
+    ctx.rep.note("refusal_samples", json!(odd));
     let opened: Vec<String> = ctx.opened_paths.iter().cloned().collect();
     ctx.rep.add("strace_distinct_paths_opened", opened.len() as u64);
     ctx.rep.note("strace_distinct_paths_opened", json!(opened));
@@ -832,4 +1004,44 @@ pub fn run(args: &mut Args) {
     let rep = ctx.rep;
     cleanup(&root);
     rep.finish();
+}
+
+/// Timing aid (not part of any check): in-process load loop without fork.
+pub fn bench(args: &Args) {
+    unsafe {
+        std::env::set_var("RTEN_NUM_THREADS", "1");
+    }
+    let root = tree::fresh_root("bench");
+    let tree = Tree::spec(&root);
+    tree.create();
+    std::env::set_current_dir(&root).unwrap();
+    let case = Case { tensors: vec![TensorSpec { dtype: UINT8, dims: vec![16], location: Some(b"w.data".to_vec()), offset: Some("0".into()), length: Some("16".into()), extra: vec![] }], optimize: false, model_path: "abs".into(), family: "bench".into() };
+    std::fs::write(tree.mdir.join("model.onnx"), case.model_bytes()).unwrap();
+    let n = args.get_u64("n", 200);
+    for loader in LOADERS {
+        let t0 = std::time::Instant::now();
+        for _ in 0..n {
+            let _ = exec::fork_run(20, || exec::load_case(&tree, &case, loader, "model.onnx").to_string());
+        }
+        eprintln!("{}: forked load+readback {:?}/iter", loader.name(), t0.elapsed() / n as u32);
+        let t0 = std::time::Instant::now();
+        for _ in 0..n {
+            let _ = exec::fork_run(20, || format!("{}", exec::load_only(&tree, &case, loader, "model.onnx", None).is_ok()));
+        }
+        eprintln!("{}: forked load only {:?}/iter", loader.name(), t0.elapsed() / n as u32);
+    }
+    let t0 = std::time::Instant::now();
+    for _ in 0..n {
+        let _ = exec::fork_run(20, || String::from("x"));
+    }
+    eprintln!("empty fork {:?}/iter", t0.elapsed() / n as u32);
+    for loader in LOADERS {
+        let t0 = std::time::Instant::now();
+        for _ in 0..n {
+            let r = exec::load_only(&tree, &case, loader, "model.onnx", None);
+            assert!(matches!(r, Ok(Ok(_))));
+        }
+        eprintln!("{}: in-process load only {:?}/iter", loader.name(), t0.elapsed() / n as u32);
+    }
+    cleanup(&root);
 }
